@@ -163,6 +163,13 @@ def run(tier):
     plans.append((uni, 0, "w", ()))
     plans.append((uni[:100], 100, "dot", ("--tabs", "0")))
 
+    # recorded findings (known_findings.json): a difference made of a zero-width character at threshold 0;
+    # a run of changed lines longer than the line buffer at threshold 1
+    ZW = [(["foo .\u0301 baz"], ["foo . baz"]), (["foo \u200bbar baz"], ["foo bar baz"])]
+    LONGRUN = [([f"alpha{i} beta" for i in range(1, 41)], [f"gamma{i} beta" for i in range(1, 41)])]
+    plans.append((ZW, 0, "w", ()))
+    plans.append((LONGRUN, 100, "w", ()))
+
     def one(plan):
         cases, thr, re = plan[:3]
         extra = plan[3] if len(plan) > 3 else ()
@@ -210,6 +217,12 @@ def run(tier):
     log(f"[{PID}] {len(events)} rendered subhunks judged by TLC (Trace_Emph), {len(failed)} rejected")
     for f in failed:
         ms, ps, thr, re = meta[f["run"]]
+        if (ms, ps) in ZW and thr == 0:
+            V.violation("zero-width-difference-at-distance-0", f"{f['why']}: removed {ms!r} added {ps!r} (max distance 0)", {"minus": ms, "plus": ps})
+            continue
+        if (ms, ps) in LONGRUN:
+            V.violation("run-longer-than-line-buffer", f"{f['why']}: 40 removed and 40 added lines at max distance 1, default line buffer", {"why": f["why"]})
+            continue
         V.violation(f"{f['why']}:{thr}:{re}:{ms}:{ps}", f"{f['why']}: removed {ms!r} added {ps!r} (max distance {thr}%, regex {re})",
                     {"minus": ms, "plus": ps, "thr": thr, "re": re, "event": events[f["run"]]})
     rc = V.finish()
